@@ -10,6 +10,7 @@ import engine_pan as pan
 
 PROPS = {
     "C02": {
+        "controls": ["PAN-1", "PAN-3", "ERR-1"],
         "rules": [("PAN-1", pan.pan1), ("PAN-2", pan.pan2), ("PAN-3", pan.pan3), ("PAN-4", pan.pan4), ("ERR-1", err.err1)],
         "explanation": "Decides four panic mechanisms whose presence is visible in the shape of the code (each a necessary condition of C02), not termination or "
                        "value-dependent panics. PAN-1: forward liveness of every RefCell guard on MIR plus interprocedural borrow summaries (cells = SubRule fields / "
@@ -23,6 +24,7 @@ PROPS = {
         "assumptions": ["all SubRule methods are invoked on the same SubRule object (cells named by field)"],
     },
     "C08": {
+        "controls": ["FLW-guard"],
         "rules": [("FLW-5", flw2.flw5), ("FLW-6", flw2.flw6), ("FLW-7", flw2.flw7), ("TAB-2", tab.tab2), ("TAB-3", tab.tab3)],
         "explanation": "Decides the invariant-maintenance clauses of C08: a representation invariant holds after every rule iff every writer re-establishes it. "
                        "FLW-5a: MIR typestate (Empty/NonEmpty/Maybe, branch-refined on is_empty) of every by-value syllable that is pushed, inserted or stored "
@@ -37,6 +39,7 @@ PROPS = {
                         "gen_syll_from_struct may return an empty syllable (unknown variable / empty structure), hence Maybe"],
     },
     "C14": {
+        "controls": ["FLW-guard"],
         "rules": [("FLW-4", flw2.flw4)],
         "explanation": "Decides the write-effect clauses of C14 on MIR: Segment::apply_seg_mods cannot reach a syllable by type; in Syllable::apply_syll_mods every write "
                        "of stress (tone) is reachable only on a Some edge of mods.stress[i] (mods.tone) and nothing else is written; in apply_supras every insertion/"
@@ -47,6 +50,7 @@ PROPS = {
         "assumptions": [],
     },
     "C06": {
+        "controls": ["FLW-guard"],
         "rules": [("FLW-1", flw.flw1)],
         "explanation": "Decides the no-write-without-match clause of C06: the four matchers take the word as &Word and Word/Syllable/Segment are Freeze with no "
                        "unaudited unsafe in their call tree, so a failed or partial match cannot have altered it; in SubRule::apply the word is replaced only by "
@@ -75,6 +79,7 @@ PROPS = {
         "assumptions": ["C11's independence of words (PUR rules) for the projection argument"],
     },
     "C19": {
+        "controls": ["CLI-1"],
         "rules": [("CLI-1", cli.cli1), ("CLI-4", cli.cli4), ("TAB-7", cli.tab7)],
         "explanation": "Decides the wiring and file-format clauses of C19: no call (lib, bin) passes same-typed arguments crosswise to each other's parameters "
                        "(names of arguments vs parameters); in `asca run` the four components of get_input reach asca::run's parameters of the same role and the "
@@ -95,6 +100,7 @@ PROPS = {
         "assumptions": [],
     },
     "C01": {
+        "controls": ["PUR-1", "PUR-2", "PUR-3"],
         "rules": [("PUR-1", pur.pur1), ("PUR-2", pur.pur2), ("PUR-3", pur.pur3), ("PUR-4", pur.pur4)],
         "explanation": "Decides C01 as an effect property: in safe Rust a function of its arguments can only become nondeterministic through hash-collection "
                        "iteration order, ambient inputs (time, env, fs, threads, randomness, addresses), state surviving a call (interior-mutable statics, "
@@ -108,6 +114,7 @@ PROPS = {
                         "Trie::insert is order-insensitive (children kept sorted; confirmed by reading)"],
     },
     "C10": {
+        "controls": ["PUR-3"],
         "rules": [("PUR-3", pur.pur3), ("PUR-4", pur.pur4), ("PUR-5", pur.pur5)],
         "explanation": "Decides the statelessness / grouping clause of C10: applying a rule list is a left fold `word = rule.apply(word)?` over groups and rules in "
                        "order with no early exit, no adaptor and no other loop-carried state (PUR-5); the step depends only on its arguments: no global state "
@@ -116,6 +123,7 @@ PROPS = {
         "assumptions": ["Rule::apply's own determinism is C01's claim"],
     },
     "C11": {
+        "controls": ["PUR-1", "PUR-3"],
         "rules": [("PUR-1", pur.pur1), ("PUR-3", pur.pur3), ("PUR-4", pur.pur4), ("PUR-5", pur.pur5)],
         "explanation": "Decides C11 structurally: one result per input line in input order (apply_rule_groups pushes exactly one word per word and one phrase per line, "
                        "iterating front to back with no break/continue/adaptor; parse_phrases / phrases_to_string use only order- and count-preserving adaptors, "
@@ -125,6 +133,7 @@ PROPS = {
         "assumptions": [],
     },
     "C17": {
+        "controls": ["ERR-1"],
         "rules": [("ERR-1", err.err1), ("ERR-2", err.err2), ("ERR-3", err.err3)],
         "explanation": "Decides the dispatch, payload and index-provenance clauses of C17: no call of an ASCAError formatter resolves to an impl whose "
                        "body is a bare unreachable!() (lib and CLI dispatchers cover all six Error variants); every variant of the six error enums carries a "
@@ -142,6 +151,7 @@ PROPS = {
         "assumptions": ["doc/doc.md keeps its `X -> ... (equiv. to [..])` row layout"],
     },
     "C13": {
+        "controls": ["SYN-1"],
         "rules": [("TAB-5", tab2.tab5), ("TAB-6", tab2.tab6), ("SYN-1", tab2.syn1)],
         "explanation": "Decides the table and follow-set clauses of C13: the feature-name synonym tables of the two lexers are equal maps, without "
                        "duplicate or unreachable spellings and covering FEAT_VARIANTS; word-level respellings (Word::to_ipa, Word::new replace chains, "
@@ -152,10 +162,10 @@ PROPS = {
         "assumptions": ["doc/doc.md keeps its '### Inbuilt Aliases' code blocks", "a helper that tests both members of a pair satisfies SYN-1 by itself"],
     },
     "C04": {
-        "rules": [("TAB-1", tab.tab1), ("TAB-2", tab.tab2)],
+        "rules": [("TAB-1", tab.tab1), ("TAB-2", tab.tab2), ("TAB-3", tab.tab3)],
         "explanation": "Decides the table clauses of C04 only: the hand-maintained index tables (FType/NodeType/NodeKind "
                        "from_usize & count, DiaFeatType = NodeType++FType, hm_to_mod split constant, modifier array lengths, "
-                       "diacritics.json keys) agree, and FType::to_node_mask maps every feature to exactly one bit, bits of a node "
+                       "diacritics.json keys) agree, the 16-bit place packing is laid out consistently and used consistently by its accessors (TAB-3, see C18), and FType::to_node_mask maps every feature to exactly one bit, bits of a node "
                        "disjoint and contiguous and equal to the Place masks, enum order node-contiguous. A necessary condition: a "
                        "duplicated/two-bit mask or a shifted index makes [+F] test or alter another feature.",
         "does_not_decide": "Segment::apply_seg_mods node/alpha logic, alpha capture and replay, sub-node creation semantics (value-level).",
